@@ -205,6 +205,62 @@ func (s *sysB) recorded() (map[string]int32, int64, int32) {
 	return per, sum, state
 }
 
+
+// saturatedHandover: the BFS depth does not reach "everything is handed out, THEN the shard changes hands, THEN a busy
+// instance reports". This runs exactly that, on the write-back store, for every placement of the flushes: instances
+// report overload until the recorded sum stops growing, the shard is given up and taken again, and every instance
+// reports overload once more - judged by the same per-report oracle as the histories.
+func saturatedHandover(c *ev.Check) {
+	for _, typ := range []proxyv1alpha1.FlowControlSchemaType{MIF, TB} {
+		for _, base := range []int32{10, 100} {
+			for flushes := 0; flushes < 8; flushes++ { // bit 0: before any report, bit 1: after saturation, bit 2: after the hand-over
+				sp := specBOn(typ, 2, base, "k8s-writeback")
+				sys := sp.New()
+				var hist []string
+				do := func(e string) bool {
+					hist = append(hist, e)
+					if err := sp.Apply(sys, e); err != nil {
+						msg := err.Error()
+						key := msg
+						if i := strings.Index(msg, ": "); i > 0 {
+							key = msg[:i]
+						}
+						c.Violation("saturated-handover/"+key, fmt.Sprintf("%s limit %d, history %v: %s", typ, base, hist, msg), map[string]interface{}{"type": string(typ), "limit": base, "history": hist})
+						return false
+					}
+					return true
+				}
+				ok := true
+				if flushes&1 != 0 {
+					ok = do("flush")
+				}
+				last := int64(-1)
+				for round := 0; ok && round < 40; round++ {
+					ok = do("report 0 over") && do("report 1 over")
+					_, sum, _ := sys.(*sysB).recorded()
+					if sum == last {
+						break
+					}
+					last = sum
+				}
+				if ok && flushes&2 != 0 {
+					ok = do("flush")
+				}
+				ok = ok && do("handover")
+				if ok && flushes&4 != 0 {
+					ok = do("flush")
+				}
+				ok = ok && do("report 0 over") && do("report 1 over") && do("report 0 over")
+				c.Add("saturated_handover_runs", 1)
+				c.Outcome("saturated_handover", fmt.Sprintf("%s/%d/%d/%d", typ, base, flushes, last))
+				if sp.Close != nil {
+					sp.Close(sys)
+				}
+			}
+		}
+	}
+}
+
 func instName(i int) string { return fmt.Sprintf("gw%d", i) }
 
 func specB(typ proxyv1alpha1.FlowControlSchemaType, k int, base int32) xstate.Spec {
@@ -242,7 +298,7 @@ func specBOn(typ proxyv1alpha1.FlowControlSchemaType, k int, base int32, store s
 			}
 			evs = append(evs, "limit down", "limit up")
 			if store != "local" {
-				evs = append(evs, "flush")
+				evs = append(evs, "flush", "handover") // handover: the shard is given up (final flush) and taken again (load)
 			}
 			if typ == TB {
 				evs = append(evs, "burst halved", "burst restored") // the global burst alone changes: qps, schema set and type stay
@@ -256,6 +312,16 @@ func specBOn(typ proxyv1alpha1.FlowControlSchemaType, k int, base int32, store s
 			s := si.(*sysB)
 			f := strings.Fields(e)
 			switch f[0] {
+			case "handover":
+				// what the next holder of the shard starts from is what was persisted; the quotas recorded there keep
+				// binding the allocation (instances are not told that the server changed)
+				s.rig.Lose(0)
+				s.rig.Gain(0)
+				if s.rig.H.Store(0) == nil {
+					return fmt.Errorf("handover-failed: no store after the shard was taken again")
+				}
+				// (the .state condition is recomputed by the next report; the oracles of that report judge what it starts from)
+				return nil
 			case "flush":
 				if fl, ok := s.rig.H.Store(0).(interface{ Flush() error }); ok {
 					if err := fl.Flush(); err != nil {
@@ -551,6 +617,7 @@ func main() {
 			tasks = append(tasks, xa.Tasks(c, h)...)
 		}
 	}
+	tasks = append(tasks, ev.Task{Name: "saturated-handover", Run: func() { saturatedHandover(c) }})
 	c.RunTasks(tasks)
 	c.Finish(map[string]interface{}{
 		"states":                        c.Counter("states") + c.Counter("choice_points"),
